@@ -74,6 +74,7 @@ type FuncCtx struct {
 	site    ssa.Instruction         // the call site in parent
 	argVal  map[ssa.Value]ssa.Value // parameter -> argument value in parent (contexts of inlined callees)
 	exhaust map[*ssa.BasicBlock]*bddNode
+	alias   map[string]string // access-path prefix -> role name (fields of a parameter object)
 }
 
 // AbsCond: the condition of block b expressed from the entry of the top-level function: the block's own
@@ -566,8 +567,16 @@ func (fc *FuncCtx) binopFormula(x *ssa.BinOp) *bddNode {
 			// len(s) < 1 -> empty(s)
 			f = fc.emptyAtom(x, la)
 		} else {
-			sa, sb := fc.AP(a), fc.AP(b)
-			f = fc.A.atom("lt("+sa+","+sb+")", "lt", fc, x, []ssa.Value{a, b}, sa, sb)
+			if found, ok := fc.foundByIndex(a); ok && isIntConst(b, 0) {
+				// slices.Index*(...) < 0: not found
+				f = B.Not(found)
+			} else if found, ok := fc.foundByIndex(b); ok && isIntConst(a, -1) {
+				// -1 < slices.Index*(...): found
+				f = found
+			} else {
+				sa, sb := fc.AP(a), fc.AP(b)
+				f = fc.A.atom("lt("+sa+","+sb+")", "lt", fc, x, []ssa.Value{a, b}, sa, sb)
+			}
 		}
 		if neg {
 			return B.Not(f)
@@ -608,6 +617,13 @@ func (fc *FuncCtx) eqFormula(in ssa.Instruction, a, b ssa.Value) *bddNode {
 	// boolean equality
 	if isBoolType(a.Type()) && isBoolType(b.Type()) {
 		return B.Iff(fc.Formula(a), fc.Formula(b))
+	}
+	// slices.Index*(...) == -1: not found
+	if found, ok := fc.foundByIndex(a); ok && isIntConst(b, -1) {
+		return B.Not(found)
+	}
+	if found, ok := fc.foundByIndex(b); ok && isIntConst(a, -1) {
+		return B.Not(found)
 	}
 	// emptiness
 	if isEmptyStringConst(b) {
@@ -739,33 +755,9 @@ func (fc *FuncCtx) callFormula(x *ssa.Call) *bddNode {
 		return fc.A.atom("eq("+sa+","+sb+")", "eq", fc, x, []ssa.Value{va, vb}, sa, sb)
 	}
 	// slices.ContainsFunc(xs, func(x T) bool {...}): "some element of xs satisfies the literal's body"
-	if sc != nil && strings.HasPrefix(sc.String(), "slices.ContainsFunc[") && len(c.Args) == 2 && fc.depth < fc.A.MaxDepth+1 {
-		var cf *ssa.Function
-		var mc *ssa.MakeClosure
-		switch y := c.Args[1].(type) {
-		case *ssa.MakeClosure:
-			mc = y
-			cf, _ = y.Fn.(*ssa.Function)
-		case *ssa.Function:
-			cf = y
-		}
-		if cf != nil && len(cf.Blocks) > 0 && len(cf.Params) == 1 {
-			env := map[ssa.Value]string{cf.Params[0]: fc.AP(c.Args[0]) + "[*]"}
-			for i, fv := range cf.FreeVars {
-				if mc != nil && i < len(mc.Bindings) {
-					env[fv] = fc.AP(mc.Bindings[i])
-				}
-			}
-			pfx := fc.prefix
-			if pfx == "" {
-				pfx = fc.A.P.FnName(fc.Fn) + "/"
-			}
-			sub := fc.A.ctxWith(cf, env, fmt.Sprintf("%s%s@%s/", pfx, cf.Name(), x.Name()), fc.depth+1)
-			if sub.parent == nil {
-				sub.parent, sub.site = fc, x
-				sub.argVal = map[ssa.Value]ssa.Value{}
-			}
-			return fc.existsAtom(sub.ResultFormula(0, sub.Formula), x)
+	if sc != nil && strings.HasPrefix(sc.String(), "slices.ContainsFunc[") && len(c.Args) == 2 {
+		if f, ok := fc.existsElemFunc(c.Args[0], c.Args[1], x); ok {
+			return f
 		}
 	}
 	// a predicate handed to this function as a func literal and called here (walker(func(x T) bool {...})): when this
@@ -998,6 +990,75 @@ func (a *Analysis) globalNonNil(g *ssa.Global) bool {
 		}
 	}
 	return a.nonNilG[g]
+}
+
+// existsElemFunc: "some element of xs satisfies pred", pred a function literal (or named function) of one parameter.
+func (fc *FuncCtx) existsElemFunc(xs, pred ssa.Value, site *ssa.Call) (*bddNode, bool) {
+	return fc.elemFuncFormula(xs, pred, site, true)
+}
+
+func (fc *FuncCtx) elemFuncFormula(xs, pred ssa.Value, site *ssa.Call, wrap bool) (*bddNode, bool) {
+	if fc.depth >= fc.A.MaxDepth+1 {
+		return nil, false
+	}
+	var cf *ssa.Function
+	var mc *ssa.MakeClosure
+	switch y := pred.(type) {
+	case *ssa.MakeClosure:
+		mc = y
+		cf, _ = y.Fn.(*ssa.Function)
+	case *ssa.Function:
+		cf = y
+	}
+	if cf == nil || len(cf.Blocks) == 0 || len(cf.Params) != 1 {
+		return nil, false
+	}
+	env := map[ssa.Value]string{cf.Params[0]: fc.AP(xs) + "[*]"}
+	for i, fv := range cf.FreeVars {
+		if mc != nil && i < len(mc.Bindings) {
+			env[fv] = fc.AP(mc.Bindings[i])
+		}
+	}
+	pfx := fc.prefix
+	if pfx == "" {
+		pfx = fc.A.P.FnName(fc.Fn) + "/"
+	}
+	sub := fc.A.ctxWith(cf, env, fmt.Sprintf("%s%s@%s/", pfx, cf.Name(), site.Name()), fc.depth+1)
+	if sub.parent == nil {
+		sub.parent, sub.site = fc, site
+		sub.argVal = map[ssa.Value]ssa.Value{}
+	}
+	if !wrap {
+		return sub.ResultFormula(0, sub.Formula), true
+	}
+	return fc.existsAtom(sub.ResultFormula(0, sub.Formula), site), true
+}
+
+// foundByIndex: v is the result of slices.Index(xs, x) / slices.IndexFunc(xs, pred): the formula "an element was found"
+// (the result is >= 0), which is what slices.Contains / ContainsFunc of the same arguments says.
+func (fc *FuncCtx) foundByIndex(v ssa.Value) (*bddNode, bool) {
+	c, ok := v.(*ssa.Call)
+	if !ok || len(c.Call.Args) != 2 {
+		return nil, false
+	}
+	sc := c.Call.StaticCallee()
+	if sc == nil {
+		return nil, false
+	}
+	switch {
+	case strings.HasPrefix(sc.String(), "slices.IndexFunc["):
+		// the element at the returned index is the representative element "[*]": it satisfies the predicate itself
+		return fc.elemFuncFormula(c.Call.Args[0], c.Call.Args[1], c, false)
+	case strings.HasPrefix(sc.String(), "slices.Index["):
+		sa, sb := fc.AP(c.Call.Args[0])+"[*]", fc.AP(c.Call.Args[1])
+		va, vb := c.Call.Args[0], c.Call.Args[1]
+		if sa > sb {
+			sa, sb = sb, sa
+			va, vb = vb, va
+		}
+		return fc.A.atom("eq("+sa+","+sb+")", "eq", fc, c, []ssa.Value{va, vb}, sa, sb), true
+	}
+	return nil, false
 }
 
 // closureArg: v is a func-typed parameter of a function analysed as part of its caller, and the caller passed a
